@@ -356,7 +356,9 @@ var all = []*Codec{
 		MaxFrameSize: av1.MaxTemporalUnitSize, MaxUnits: av1.MaxOBUsPerTemporalUnit,
 		// 3 is the true minimum (aggregation header + LEB128 + 1); with 2 and a TU
 		// of >= 2 OBUs the encoder loops forever creating empty packets (by code
-		// reading, not run). At small sizes most multi-OBU TUs hit KnownDefect.
+		// reading, not run). (The boundary defect av1BoundaryDefect describes was repaired in the
+		// repository - "fix: rtpav1 encoder flags an OBU as fragmented only when ..." - so it is no
+		// longer predicted.)
 		MinPayloadMax: 4, UnitAlign: 1, PayloadType: pt,
 		NewEncoder: func(pms int, seq uint16, ssrc uint32) (Encoder, error) {
 			return newEncM(&rtpav1.Encoder{
@@ -368,7 +370,6 @@ var all = []*Codec{
 			return decM{d}, d.Init()
 		},
 		GenFrame: genAV1, Equal: equalUnits, MinUnitSize: 1, Exact: true,
-		KnownDefect: av1BoundaryDefect,
 	},
 	{
 		Name: "vp8", Video: true, Fragments: true, FrameMode: true, Stateful: true,
